@@ -33,6 +33,10 @@ type c07Step struct {
 	BadType  byte   `json:"bad_type,omitempty"`
 	Oversize uint32 `json:"oversize,omitempty"`
 	WrongKey bool   `json:"wrong_key,omitempty"`
+	// Tail: a second request arrives in the same read as this one (pipelining), on a session id of its
+	// own so that what it must get does not depend on this request: "author" (an acceptable
+	// authorization request), "bad-header" or "even-seq" (requests the server rejects)
+	Tail string `json:"tail,omitempty"`
 }
 
 type c07Case struct {
@@ -203,6 +207,9 @@ func genC07(t *rapid.T) c07Case {
 		if len(s.Body) > 65536 {
 			s.Body = s.Body[:65536]
 		}
+		if rapid.IntRange(0, 5).Draw(t, "pipelined") == 0 {
+			s.Tail = rapid.SampledFrom([]string{"author", "bad-header", "even-seq"}).Draw(t, "tail")
+		}
 		c.Steps = append(c.Steps, s)
 	}
 	return c
@@ -310,14 +317,43 @@ func runC07(t failer, c c07Case) (paths []string) {
 		if s.Flags&model.FlagUnencrypted != 0 {
 			class = model.WellFormed
 		}
+		tailSid := uint32(0x7a110000 + i)
+		if s.Tail != "" {
+			ev.Class("pipelined:" + s.Tail)
+			th := model.Header{Version: 0xc0, Type: 2, Seq: 1, Session: tailSid}
+			switch s.Tail {
+			case "bad-header":
+				th.Version = 0xd0
+			case "even-seq":
+				th.Seq = 2
+			}
+			tb := model.AuthorRequest{Method: 6, Priv: 1, AType: 1, Service: 1, User: b("mallory"), Port: b("p"), RemAddr: b("r"), Args: []model.B{b("service=shell"), b("cmd=show")}}.Encode()
+			wire = append(append([]byte{}, wire...), model.Frame(key, th, tb)...)
+		}
 		env.rec.Reset()
 		pkts, rest, nowClosed, err := d.send(wire)
 		if err != nil {
 			t.Fatalf("%v", err)
 		}
 		lastUsed[sid] = seq
-		calls := env.rec.Calls()
-		frames := len(pkts)
+		allCalls := env.rec.Calls()
+		var calls []refsrv.Call
+		tailCalls, tailFrames := 0, 0
+		for _, cl := range allCalls {
+			if s.Tail != "" && cl.Session == tailSid {
+				tailCalls++
+			} else {
+				calls = append(calls, cl)
+			}
+		}
+		frames := 0
+		for _, p := range pkts {
+			if s.Tail != "" && p.H.Session == tailSid {
+				tailFrames++
+			} else {
+				frames++
+			}
+		}
 		if len(rest) != 0 {
 			frames++
 		}
@@ -339,8 +375,8 @@ func runC07(t failer, c c07Case) (paths []string) {
 			if len(calls) != 0 {
 				fail(i, "rejected-reached-handler", "the request must be rejected (header ok=%v, sequence ok=%v, body class=%d) but %d handler invocation(s) happened", headerOK, seqOK, class, len(calls))
 			}
-			if frames > 1 {
-				fail(i, "rejected-many-packets", "%d packets written for a rejected request", frames)
+			if frames+tailFrames > 1 || tailCalls != 0 {
+				fail(i, "rejected-many-packets", "%d packets written for a rejected request (and %d handler invocations for the request that followed it in the same read)", frames+tailFrames, tailCalls)
 			}
 			if !nowClosed {
 				fail(i, "rejected-not-closed", "the connection stayed open after a rejected request (header ok=%v, sequence ok=%v, body class=%d)", headerOK, seqOK, class)
@@ -361,8 +397,20 @@ func runC07(t failer, c c07Case) (paths []string) {
 				}
 				fail(i, sig, "%d reply packets written before the next read, expected %d (sequence number %d; handler made %d Reply and %d Write calls)", frames, want, seq, calls[0].Replies, calls[0].Writes)
 			}
-			if nowClosed {
-				fail(i, "accepted-closed", "connection closed after an acceptable request")
+			switch s.Tail {
+			case "":
+				if nowClosed {
+					fail(i, "accepted-closed", "connection closed after an acceptable request")
+				}
+			case "author":
+				if nowClosed || tailCalls != 1 || tailFrames != 1 {
+					fail(i, "pipelined-request-not-served", "an acceptable request that arrived in the same read as the one before it: %d handler invocations, %d replies, closed=%v", tailCalls, tailFrames, nowClosed)
+				}
+			default:
+				if tailCalls != 0 || tailFrames > 1 || !nowClosed {
+					fail(i, "rejected-reached-handler", "a request to be rejected (%s) that arrived in the same read as an acceptable one: %d handler invocations, %d packets, closed=%v", s.Tail, tailCalls, tailFrames, nowClosed)
+				}
+				closed = true
 			}
 			if calls[0].Nexts > 0 {
 				open[sid] = seq + 1
